@@ -2,6 +2,7 @@
 the exclusion list, de-duplicated and counted; never ordered, sliced, parsed, or used positionally."""
 from __future__ import annotations
 
+from sa.anchors import is_helper
 from sa import terms as T
 from sa.core import AnalysisError
 from sa.rules.common import effects, processing_path, call_head
@@ -152,8 +153,8 @@ def labels_only(ctx, rule='C16-R1'):
         # a private helper all of whose callers live in its own module is judged in the context of those callers
         # (expanded at the call site, its parameters bound to what is passed): extracting one changes nothing
         callers = fx.callers.get(q, set())
-        if f.name.startswith('_') and not f.name.startswith('__') and callers and not f.is_property and \
-                all(c in p.funcs and p.funcs[c].module.name == f.module.name and c in reach for c in callers):
+        if (is_helper(p, q) or (f.name.startswith('_') and not f.name.startswith('__'))) and callers and \
+                not f.is_property and all(c in p.funcs and c in reach for c in callers):
             continue
         sc.loops = fx.deep_loops(q)
         for e in fx.deep_events(q):
@@ -210,14 +211,21 @@ def order_insensitive_reductions(ctx, rule='C16-R2'):
     n = 0
     for q in sorted(reach):
         seen = set()
-        for e in fx.own_events(q):
+        f = p.funcs[q]
+        callers = fx.callers.get(q, set())
+        if (is_helper(p, q) or (f.name.startswith('_') and not f.name.startswith('__'))) and callers and \
+                not f.is_property and all(c in reach for c in callers):
+            continue        # a helper is judged where it is used, with its parameters bound (see labels_only)
+        sc.loops = fx.deep_loops(q)
+        events_q = fx.deep_events(q)
+        for e in events_q:
             for nm, v in fx.terms_of(e):
                 if nm in ('guard', 'base'):
                     continue
                 occ = _lc_occurrences(v, lambda x: any(sc.namey(it, frozenset()) for it, _ in x[3]))
                 for lc, parent in occ:
-                    if e.kind == 'assign' and parent is None:
-                        continue     # bound to a local: judged where it is consumed
+                    if parent is None and (e.kind == 'assign' or (e.kind == 'return' and e.ctx)):
+                        continue     # bound to a local / handed back by a helper: judged where it is consumed
                     key = (lc, parent)
                     if key in seen:
                         continue
@@ -237,16 +245,16 @@ def order_insensitive_reductions(ctx, rule='C16-R2'):
                                   "(floating-point summation order would depend on the names' sort order)",
                                   instance=f'{q}: summed quantities are integer counts')
         # explicit loops over the names
-        for lid, loop in fx.ex.loops.items():
-            if loop.func.qname != q or loop.iter is None or not sc.namey(loop.iter, frozenset()):
+        for lid, loop in sc.loops.items():
+            if loop.iter is None or not sc.namey(loop.iter, frozenset()):
                 continue
             n += 1
-            s = fx.summ[q]
+            s = fx.deep(q)[1]
             ok = True
-            used_terms = [v for e in fx.own_events(q) for _, v in fx.terms_of(e)] + [s.ret]
-            for nm, val in s.env.items():
-                if tag(val) == 'loopres' and val[1] == lid:
-                    body = val[4]
+            used_terms = [v for e in events_q for _, v in fx.terms_of(e)] + [s.ret]
+            for nm, (init_v, body) in loop.carried.items():
+                val = ('loopres', lid, nm, init_v, body)
+                if nm not in loop.as_lc and body != ('lphi', lid, nm):
                     lphi = ('lphi', lid, nm)
                     acc = tag(body) == 'bin' and body[1] == '+' and lphi in (body[2], body[3])
                     # a per-iteration temporary (recomputed from the loop variable, never read after the loop) is no state
